@@ -75,6 +75,38 @@ def render(mods, order=None, drop=None, noise=""):
     return "".join(out) + noise
 
 
+# present in every variant: one type whose header forward-declares types from several namespaces (any per-process iteration
+# order in a backend shows up as a difference between identical runs)
+HUB = """#[diplomat::bridge]
+mod ffihub {
+    #[diplomat::opaque]
+    #[diplomat::attr(supports = namespacing, namespace = "aaa")]
+    pub struct NsA;
+    #[diplomat::opaque]
+    #[diplomat::attr(supports = namespacing, namespace = "bbb")]
+    pub struct NsB;
+    #[diplomat::opaque]
+    #[diplomat::attr(supports = namespacing, namespace = "ccc")]
+    pub struct NsC;
+    #[diplomat::opaque]
+    #[diplomat::attr(supports = namespacing, namespace = "ddd::eee")]
+    pub struct NsD;
+    #[diplomat::attr(supports = namespacing, namespace = "fff")]
+    pub struct NsS { pub v: u8 }
+    #[diplomat::attr(supports = namespacing, namespace = "ggg")]
+    pub enum NsE { P, Q }
+    #[diplomat::opaque]
+    pub struct Hub;
+    impl Hub {
+        pub fn all(&self, a: &NsA, b: &NsB, c: &NsC, d: &NsD, s: NsS, e: NsE) -> NsS { s }
+        pub fn mk_a(&self) -> Box<NsA> { Box::new(NsA) }
+        pub fn mk_d(&self) -> Option<Box<NsD>> { None }
+    }
+    impl NsB { pub fn peer(&self, c: &NsC, h: &Hub) -> NsE { NsE::P } }
+}
+"""
+
+
 def permute(mods, rng):
     """a permutation that keeps impls after their type and the relative order of one type's impl blocks"""
     order = {"mods": list(range(len(mods))), "items": []}
@@ -143,14 +175,14 @@ def check(ctx, replay=None):
     backends = BACKENDS
     for si in range(nsets):
         mods, home = gen_module_set(rng, rng.randint(4, 9))
-        base_src = render(mods)
-        variants = {"base": base_src, "again": base_src, "noise": render(mods, noise=NOISE)}
+        base_src = render(mods) + HUB
+        variants = {"base": base_src, "again": base_src, "again2": base_src, "again3": base_src, "again4": base_src, "noise": render(mods, noise=HUB + NOISE)}
         orders = []
         for k in range(nperm):
             o = permute(mods, rng); orders.append(o)
-            variants[f"perm{k}"] = render(mods, order=o)
+            variants[f"perm{k}"] = render(mods, order=o) + HUB
         # a type nothing references (Ty1 is never used as an argument)
-        variants["minus"] = render(mods, drop="Ty1")
+        variants["minus"] = render(mods, drop="Ty1") + HUB
         for name, src in variants.items():
             open(os.path.join(d, f"s{si}_{name}.rs"), "w").write(src)
         for b in backends:
@@ -167,9 +199,11 @@ def check(ctx, replay=None):
                                                   "src": variants[bad[0]][:3000]})
                 continue
             base = outs["base"][0]
-            dd = diff_dirs(base, outs["again"][0])
-            if dd:
-                violate(f"direct:rerun:{b}", {"backend": b, "what": f"two runs on the same input differ in {dd[:5]}", "src": base_src[:3000]})
+            for again in ("again", "again2", "again3", "again4"):
+                dd = diff_dirs(base, outs[again][0])
+                if dd:
+                    violate(f"direct:rerun:{b}", {"backend": b, "what": f"two runs on the same input differ in {dd[:5]}", "src": base_src[:3000]})
+                    break
             for k in range(nperm):
                 dd = diff_dirs(base, outs[f"perm{k}"][0])
                 if dd:
@@ -213,7 +247,7 @@ def check(ctx, replay=None):
                     obs = next((tys for (mname, tys) in oc["modules"] if mname == f"ffi{mi}"), [])
                     obs_t = clist([f"({idx[t]}, {clist([str(int(m[2:])) for m in ms])})" for t, ms in obs if t in idx])
                     goals.append(f"agree_collect {clist(coq_items)}%nat {obs_t}%nat")
-                stray = [m for m in oc["modules"] if m[0] not in [f"ffi{i}" for i in range(len(mods))] and m[1]]
+                stray = [m for m in oc["modules"] if m[0] not in [f"ffi{i}" for i in range(len(mods))] + ["ffihub"] and m[1]]
                 if vname == "noise" and stray:
                     violate("direct:nonbridge-collected", {"what": f"types of modules outside #[diplomat::bridge] were collected: {stray}"})
         if si == 0:
